@@ -121,6 +121,16 @@ func (a *AuthorRequest) MarshalBinary() ([]byte, error) {
 	if err := a.Validate(); err != nil {
 		return nil, err
 	}
+	if err := checkLengthFits(
+		lengthFit{"AuthorRequest.User", a.User.Len(), maxUint8Len},
+		lengthFit{"AuthorRequest.Port", a.Port.Len(), maxUint8Len},
+		lengthFit{"AuthorRequest.RemAddr", a.RemAddr.Len(), maxUint8Len},
+	); err != nil {
+		return nil, err
+	}
+	if err := checkArgsFit(a.Args); err != nil {
+		return nil, err
+	}
 	buf := make([]byte, 0, AuthorRequestLen+len(a.Args))
 	buf = append(buf, uint8(a.Method))
 	buf = append(buf, uint8(a.PrivLvl))
@@ -298,6 +308,15 @@ func (a *AuthorReply) Validate() error {
 func (a *AuthorReply) MarshalBinary() ([]byte, error) {
 	// validate
 	if err := a.Validate(); err != nil {
+		return nil, err
+	}
+	if err := checkLengthFits(
+		lengthFit{"AuthorReply.ServerMsg", a.ServerMsg.Len(), maxUint16Len},
+		lengthFit{"AuthorReply.Data", a.Data.Len(), maxUint16Len},
+	); err != nil {
+		return nil, err
+	}
+	if err := checkArgsFit(a.Args); err != nil {
 		return nil, err
 	}
 	buf := make([]byte, 0, AuthorReplyLen)
